@@ -35,6 +35,8 @@ class Sched:
         self.switch_in_rich = 0
         self.max_steps = max_steps
         self.active = False
+        self.aborted = False
+        self.kinds = None  # set to a list to have the kind of every yield point recorded (used to pick preemption points of a long run)
 
     # ------------------------------------------------------------------ set-up
     def add(self, fn, name=None):
@@ -59,6 +61,12 @@ class Sched:
         ok = self.done_evt.wait(timeout)
         self.active = False
         self.cur = None
+        if not ok or self.error is not None:
+            # deadlock / time-out verdict: the parked workers would stay parked for ever (and their threads pile up over thousands of schedules): let them unwind
+            self.aborted = True
+            for w in self.workers:
+                w.go.release()
+                w.go.release()
         if not ok:
             raise HarnessTimeout("scheduled section did not finish in %.0fs (step %d)" % (timeout, self.step))
         if self.error is not None:
@@ -73,6 +81,8 @@ class Sched:
         target.go.release()
         if me is not None and not me.finished:
             me.go.acquire()
+            if self.aborted:
+                raise SystemExit
 
     def yield_point(self, kind):
         me = self.cur
@@ -82,6 +92,8 @@ class Sched:
             return  # a foreign thread (not scheduled) touched a proxy: ignore
         s = self.step
         self.step += 1
+        if self.kinds is not None:
+            self.kinds.append(kind[0])
         if s > self.max_steps:
             self.error = HarnessTimeout("more than %d yield points" % self.max_steps)
             self.done_evt.set()
@@ -175,6 +187,9 @@ class Worker:
 
     def _run(self):
         self.go.acquire()
+        if self.s.aborted:
+            self.finished = True
+            return
         sys.settrace(self._tracer)
         try:
             self.fn()
@@ -184,7 +199,9 @@ class Worker:
             self.exc = e
         finally:
             sys.settrace(None)
-            if self.s.error is None or not isinstance(self.s.error, (Deadlock, HarnessTimeout)):
+            if self.s.aborted:
+                self.finished = True
+            elif self.s.error is None or not isinstance(self.s.error, (Deadlock, HarnessTimeout)):
                 self.s.finish(self)
 
 
